@@ -300,6 +300,26 @@ def e6(run):
                wt.where(c))
 
 
+def e7(run, tu):
+    """"the assigned value is what C sees" includes 0: the two primitives copy errno to and from the per-thread slot unconditionally"""
+    for fn, want in (('restore_errno_only', ('errno', 'cffi_saved_errno')), ('save_errno_only', ('cffi_saved_errno', 'errno'))):
+        if not tu.has_func(fn):
+            continue
+        g = cfg_of(tu, fn)
+        asg = []
+        for n in g.nodes:
+            if n.ast is None:
+                continue
+            for l_, r_, o_, _x in cx.assignments(n.ast):
+                lt, rt = cx.render(l_) if l_.get('kind') != 'VarDecl' else l_.get('name'), cx.render(r_)
+                is_errno = lambda t: 'errno_location' in t or t.strip('()*') == 'errno'
+                if (want[0] == 'errno' and is_errno(lt) and 'saved_errno' in rt) or (want[0] != 'errno' and 'saved_errno' in lt and is_errno(rt)):
+                    asg.append(n)
+        ok = len(asg) == 1 and not [f for f in g.fact_texts(asg[0].id)] and g.must_precede(g.exit.id, [asg[0].id])
+        run.ob('E7/errno-copied-unconditionally', fn, '%s = %s' % want, ok, tu.where(tu.func(fn)),
+               'the copy is conditional (%s): a value of 0 set through ffi.errno, or left by C, does not replace a stale errno' % (sorted(g.fact_texts(asg[0].id)) if asg else 'not found'))
+
+
 def check(run):
     run.explanation = (
         'Adjacency/ordering rules on the CFG: for each foreign call made for the user the nearest effectful call '
@@ -313,6 +333,7 @@ def check(run):
     n = e2(run, tu, thorough)
     run.need(n >= 2, 'expected >= 2 foreign call sites, found %d' % n)
     e3(run, tu)
+    e7(run, tu)
     e4(run, tu)
     nw = e5(run, tu, thorough)
     run.need(nw >= 30, 'expected >= 30 generated wrappers in the probe corpus, found %d' % nw)
